@@ -232,6 +232,15 @@ class P:
         if kind == 'id' and val in env and env[val][0] == 'nat':
             self.next()
             return ('n', env[val][1])
+        if kind == 'id' and val in env and env[val][0] == 'bool':
+            self.next()
+            return ('b', env[val][1])
+        if kind == 'id' and val in env and env[val][0] in ('thunk_b', 'thunk_n'):
+            # a local closure without parameters, called: its (pure) body is substituted
+            self.next()
+            self.expect('(')
+            self.expect(')')
+            return ('b' if env[val][0] == 'thunk_b' else 'n', env[val][1])
         if val == 'self':
             return self.self_(env)
         raise TranslateError('unsupported expression starting at %r' % val)
@@ -392,7 +401,48 @@ class P:
         e = self.expr(env)
         return e
 
-    def arms(self):
+    def bindings(self):
+        """`use OpcodeKind::*;` and pure local bindings before the match:  let x = EXPR;  let f = || EXPR;  (substituted)"""
+        env = {}
+        while self.peek()[0] != 'eof':
+            if self.accept('use'):
+                while self.next()[1] != ';':
+                    pass
+                continue
+            self.expect('let')
+            name = self.next()[1]
+            if name == 'mut':
+                raise TranslateError('can_emit: mutable local %s' % self.peek()[1])
+            if self.accept(':'):
+                while self.peek()[1] != '=':
+                    self.next()
+            self.expect('=')
+            thunk = self.accept('||')
+            braces = thunk and self.accept('{')
+            a = self.arith(env) if not thunk and self._numeric_ahead(env) else None
+            if a is None:
+                e = self.expr(env)
+                env[name] = ('thunk_b' if thunk else 'bool', e)
+            else:
+                env[name] = ('nat', a[1])
+            if braces:
+                self.expect('}')
+            self.expect(';')
+        return env
+
+    def _numeric_ahead(self, env):
+        """is the expression that starts here a number? (try to parse it as arithmetic followed by `;`)"""
+        save = self.i
+        try:
+            a = self.arith(env)
+            ok = a[0] == 'n' and self.peek()[1] == ';'
+        except TranslateError:
+            ok = False
+        self.i = save
+        return ok
+
+    def arms(self, env0=None):
+        env0 = env0 or {}
         out = []
         while self.peek()[0] != 'eof':
             pats = []
@@ -408,11 +458,11 @@ class P:
                     break
             self.expect('=>')
             if self.accept('{'):
-                e = self.block({})
+                e = self.block(dict(env0))
                 self.expect('}')
                 self.accept(',')
             else:
-                e = self.expr({})
+                e = self.expr(dict(env0))
                 self.expect(',')
             out.append((pats, e))
         return out
@@ -425,8 +475,7 @@ def translate_can_emit(repo, names):
     if not m:
         raise TranslateError('can_emit: `match opcode {` not found')
     pre = body[:m.start()]
-    if re.sub(r'use\s+OpcodeKind::\*;|//[^\n]*|\s+', '', pre):
-        raise TranslateError('can_emit: unexpected statements before the match: %r' % pre.strip()[:80])
+    env0 = P(tokenize(pre), rust_to_cp(names)).bindings()
     inner = body[m.end():]
     depth, j = 1, 0
     while j < len(inner):
@@ -442,7 +491,7 @@ def translate_can_emit(repo, names):
         j += 1
     if re.sub(r'//[^\n]*|\s+', '', inner[j + 1:]):
         raise TranslateError('can_emit: unexpected statements after the match')
-    arms = P(tokenize(inner[:j]), rust_to_cp(names)).arms()
+    arms = P(tokenize(inner[:j]), rust_to_cp(names)).arms(env0)
     lines = ["(* GENERATED on every run by tools/gen_src.py from /repo/src/generator/validation.rs *)",
              "From Coq Require Import List NArith Bool Arith.", "Import ListNotations.",
              "From PF Require Import Opcodes Config Sim.", "",
